@@ -50,9 +50,9 @@ Proof.
 Qed.
 
 (* a key type whose basic form is a str only has str encodings *)
-Lemma str_wired_jstr E : forall m n t v j, str_wired m E t = true -> enc_ok n E t v j = true -> exists s, j = JStr s.
+Lemma str_wired_jstr E : forall m n cur base t v j, str_wired m E t = true -> enc_ok n E cur base t v j = true -> exists s, j = JStr s.
 Proof.
-  induction m as [|m IHm]; intros n t v j Hw He; [discriminate|].
+  induction m as [|m IHm]; intros n cur base t v j Hw He; [discriminate|].
   destruct n as [|n]; [discriminate|].
   destruct t; cbn [str_wired] in Hw; try discriminate; cbn [enc_ok] in He.
   - destruct v, j; try discriminate. eauto.
@@ -143,6 +143,89 @@ Proof.
   unfold sort_str. induction l as [|x r IH]; cbn; [auto|]. intros H. destruct (ins_str_In _ _ _ H) as [->|H']; auto.
 Qed.
 
+(* a value that to_dict would test as None does not conform to a never-None type *)
+Lemma never_none_enc E : forall m n cur base t v j,
+  never_none m t = true -> is_none_val v = true -> enc_ok n E cur base t v j = false.
+Proof.
+  induction m as [|m IHm]; intros n cur base t v j Hn Hv; [discriminate|].
+  destruct n as [|n]; [reflexivity|].
+  assert (Hcases: v = VNone \/ v = VRaw JNull).
+  { destruct v; try discriminate; auto. destruct j0; try discriminate; auto. }
+  destruct t; cbn [never_none] in Hn; try discriminate; cbn [enc_ok].
+  all: try (destruct Hcases as [-> | ->]; reflexivity).
+  all: try (destruct Hcases as [-> | ->]; destruct j; reflexivity).
+  all: try (destruct (find_enum (enums E) e); [|reflexivity]; destruct Hcases as [-> | ->]; reflexivity).
+  all: try (destruct (find_cls _ c); [|reflexivity]; destruct Hcases as [-> | ->]; destruct j; reflexivity).
+  - (* TLit *) destruct Hcases as [-> | ->]; [reflexivity|]. apply negb_true_iff in Hn. rewrite Hn. reflexivity.
+  - (* TUnion *) apply not_true_is_false. intros He. apply existsb_exists in He. destruct He as (t' & Hin & He).
+    rewrite (IHm n cur base t' v j (forallb_In _ _ _ Hn Hin) Hv) in He. discriminate.
+Qed.
+
+Lemma has_key_cons {A} (k0: string) (v: A) l k : has_key ((k0, v) :: l) k = String.eqb k0 k || has_key l k.
+Proof. unfold has_key. cbn. destruct (String.eqb k0 k); reflexivity. Qed.
+
+(* what obj_match says about members and fields *)
+Lemma obj_match_facts chk omit : forall fields fs ms, obj_match chk omit fields fs ms = true ->
+  (forall key x, In (key, x) ms -> exists f fv, In f fields /\ key = f_key f /\ chk f fv x = true) /\
+  (forall f, In f fields ->
+     (exists fv, omit f fv = true /\ chk f fv JNull = true) \/ has_key ms (f_key f) = true).
+Proof.
+  induction fields as [|f rf IH]; intros fs ms H.
+  - destruct fs; [|discriminate]. cbn in H. destruct ms; [|discriminate]. split; [intros ? ? []|intros ? []].
+  - destruct fs as [|[nm fv] rfs]; [discriminate|]. cbn [obj_match] in H.
+    apply andb_true_iff in H. destruct H as [_ H].
+    destruct (omit f fv) eqn:Ed.
+    + apply andb_true_iff in H. destruct H as [Hc H]. destruct (IH _ _ H) as [M F]. split.
+      * intros key x Hin. destruct (M key x Hin) as (f' & fv' & Hf & Hk & Hx). exists f', fv'. split; [right|]; auto.
+      * intros f' [<-|Hin]; [|auto]. left. eauto.
+    + destruct ms as [|[key x] rms]; [discriminate|].
+      apply andb_true_iff in H. destruct H as [H Hr]. apply andb_true_iff in H. destruct H as [Hk Hc].
+      apply String.eqb_eq in Hk. destruct (IH _ _ Hr) as [M F]. split.
+      * intros key' x' [Heq|Hin].
+        -- inversion Heq; subst. exists f, fv. split; [left; reflexivity|]. auto.
+        -- destruct (M key' x' Hin) as (f' & fv' & Hf & Hk' & Hx). exists f', fv'. split; [right|]; auto.
+      * intros f' [<-|Hin].
+        -- right. rewrite has_key_cons, Hk, String.eqb_refl. reflexivity.
+        -- destruct (F f' Hin) as [Hd|Hh]; [left; assumption|]. right. rewrite has_key_cons, Hh. apply orb_true_r.
+Qed.
+
+(* properties built by omap over the fields: the schema stored under a field's key is that field's *)
+Lemma ps_assoc (kf: field -> string) (F: field -> option schema) : forall fields ps,
+  omap (fun f => match F f with Some s => Some (kf f, s) | None => None end) fields = Some ps ->
+  no_dup_str (map kf fields) = true ->
+  forall f, In f fields -> exists s, F f = Some s /\ assoc ps (kf f) = Some s.
+Proof.
+  induction fields as [|f0 r IH]; intros ps Ho Hnd f Hin; [contradiction|].
+  cbn in Ho. destruct (F f0) as [s0|] eqn:Es; [|discriminate].
+  match type of Ho with context [omap ?G r] => destruct (omap G r) as [ps'|] eqn:Er; [|discriminate] end.
+  inversion Ho; subst; clear Ho. cbn in Hnd. apply andb_true_iff in Hnd. destruct Hnd as [Hn0 Hnd].
+  destruct Hin as [<-|Hin].
+  - exists s0. split; [assumption|]. cbn. rewrite String.eqb_refl. reflexivity.
+  - destruct (IH ps' eq_refl Hnd f Hin) as (s & Hs & Ha). exists s. split; [assumption|].
+    cbn. rewrite (nodup_notin _ _ _ Hn0 (in_map kf _ _ Hin)). assumption.
+Qed.
+
+(* named tuple as dict: members correspond to the fields one to one *)
+Lemma nt_members (G: field -> value -> json -> bool) : forall fields l ms,
+  all2 (fun f (p: value * (string * json)) => match p with (fv, (key, x)) => String.eqb (f_name f) key && G f fv x end)
+       fields (combine l ms) = true ->
+  List.length l = List.length ms ->
+  (forall key x, In (key, x) ms -> exists f fv, In f fields /\ key = f_name f /\ G f fv x = true) /\
+  (forall f, In f fields -> has_key ms (f_name f) = true).
+Proof.
+  induction fields as [|f r IH]; intros l ms H Hl.
+  - destruct l, ms; try discriminate. split; [intros ? ? []|intros ? []].
+  - destruct l as [|fv l]; [cbn in H; discriminate|]. destruct ms as [|[key x] ms]; [cbn in H; discriminate|].
+    cbn in H. apply andb_true_iff in H. destruct H as [H Hr]. apply andb_true_iff in H. destruct H as [Hk Hg].
+    apply String.eqb_eq in Hk. cbn in Hl. destruct (IH l ms Hr ltac:(lia)) as [M F]. split.
+    + intros key' x' [Heq|Hin].
+      * inversion Heq; subst. exists f, fv. split; [left; reflexivity|]. auto.
+      * destruct (M key' x' Hin) as (f' & fv' & Hf & Hk' & Hx). exists f', fv'. split; [right|]; auto.
+    + intros f' [<-|Hin].
+      * rewrite has_key_cons, Hk, String.eqb_refl. reflexivity.
+      * rewrite has_key_cons, (F f' Hin). apply orb_true_r.
+Qed.
+
 Section Sound.
   Variable pm : string -> string -> bool.
   (* the regular-expression oracle accepts the rendering of every whole-minute offset
@@ -158,90 +241,26 @@ Section Sound.
     exists m s, class_schema E dl ar m d = Some s /\ assoc defs (c_name d) = Some s.
 
   Definition sound_at (n: nat) : Prop :=
-    forall t v j, enc_ok n E t v j = true ->
-    forall m m' s, ty_ok m' E t = true -> schema_f E dl ar m t = Some s ->
+    forall cur base t v j, enc_ok n E cur base t v j = true ->
+    forall m m' s, ty_ok m' E cur base t = true -> schema_f E dl ar cur m t = Some s ->
     forall k, 2 * n + 1 <= k -> jvalid pm defs k s j = true.
 
   Ltac inv H := inversion H; subst; clear H.
 
-  Lemma prefix_ok n (IH: sound_at n) m m' k (Hk: 2 * n + 1 <= k) : forall args l js ss,
-    all2 (fun (a: bool * ty) (p: value * json) => enc_ok n E (snd a) (fst p) (snd p)) args (combine l js) = true ->
-    omap (fun a: bool * ty => schema_f E dl ar m (snd a)) args = Some ss ->
-    forallb (fun a: bool * ty => ty_ok m' E (snd a)) args = true ->
+  Lemma prefix_ok {A} (g: A -> ty) n (IH: sound_at n) cur base m m' k (Hk: 2 * n + 1 <= k) : forall args l js ss,
+    all2 (fun (a: A) (p: value * json) => enc_ok n E cur base (g a) (fst p) (snd p)) args (combine l js) = true ->
+    omap (fun a: A => schema_f E dl ar cur m (g a)) args = Some ss ->
+    forallb (fun a: A => ty_ok m' E cur base (g a)) args = true ->
     forallb2 (fun s' x => jvalid pm defs k s' x) ss js = true.
   Proof.
     induction args as [|a r IHr]; intros l js ss Ha Ho Hok.
     - cbn in Ho. inv Ho. reflexivity.
-    - cbn in Ho. destruct (schema_f E dl ar m (snd a)) as [s0|] eqn:Es; [|discriminate].
+    - cbn in Ho. destruct (schema_f E dl ar cur m (g a)) as [s0|] eqn:Es; [|discriminate].
       match type of Ho with context [omap ?G r] => destruct (omap G r) as [ss'|] eqn:Er; [|discriminate] end.
       inv Ho. destruct l as [|v l]; [cbn in Ha; discriminate|]. destruct js as [|x js]; [cbn in Ha; discriminate|].
       cbn in Ha. apply andb_true_iff in Ha. destruct Ha as [Ha1 Ha2].
       cbn in Hok. apply andb_true_iff in Hok. destruct Hok as [Hok1 Hok2].
-      cbn [forallb2]. rewrite (IH _ _ _ Ha1 m m' s0 Hok1 Es k Hk). cbn. eapply IHr; eauto.
-  Qed.
-
-  Lemma fields_ok n (IH: sound_at n) mf m' k (Hk: 2 * n + 1 <= k) : forall fields fs ms ps,
-    all2 (fun f (p: (string * value) * (string * json)) => match p with ((nm, fv), (key, x)) =>
-            String.eqb (f_name f) nm && String.eqb (f_key f) key && enc_ok n E (f_ty f) fv x end)
-         fields (combine fs ms) = true ->
-    List.length fs = List.length ms ->
-    omap (fun f => match schema_f E dl ar mf (f_ty f) with Some s => Some (f_key f, s) | None => None end) fields = Some ps ->
-    forallb (fun f => f_init f && ty_ok m' E (f_ty f)) fields = true ->
-    no_dup_str (map f_key fields) = true ->
-    map fst ms = map f_key fields /\ map fst ps = map f_key fields /\
-    forallb (fun kv: string * json => match kv with (key, x) =>
-               match assoc ps key with Some s' => jvalid pm defs k s' x | None => true end end) ms = true.
-  Proof.
-    induction fields as [|f r IHr]; intros fs ms ps Ha Hl Ho Hok Hnd.
-    - cbn in Ho. inv Ho. destruct fs, ms; try discriminate. repeat split; reflexivity.
-    - destruct fs as [|[nm fv] fs]; [cbn in Ha; discriminate|]. destruct ms as [|[key x] ms]; [cbn in Ha; discriminate|].
-      cbn in Ha. apply andb_true_iff in Ha. destruct Ha as [Ha1 Ha2].
-      apply andb_true_iff in Ha1. destruct Ha1 as [Ha1 Henc]. apply andb_true_iff in Ha1. destruct Ha1 as [_ Hkey].
-      apply String.eqb_eq in Hkey. subst key.
-      cbn in Ho. destruct (schema_f E dl ar mf (f_ty f)) as [s0|] eqn:Es; [|discriminate].
-      match type of Ho with context [omap ?G r] => destruct (omap G r) as [ps'|] eqn:Er; [|discriminate] end.
-      inv Ho. cbn in Hok. apply andb_true_iff in Hok. destruct Hok as [Hok1 Hok2].
-      apply andb_true_iff in Hok1. destruct Hok1 as [_ Hokt].
-      cbn in Hnd. apply andb_true_iff in Hnd. destruct Hnd as [Hnd1 Hnd2].
-      cbn in Hl. destruct (IHr fs ms ps' Ha2 ltac:(lia) eq_refl Hok2 Hnd2) as (Hm & Hp & Hv).
-      repeat split.
-      + cbn. f_equal. assumption.
-      + cbn. f_equal. assumption.
-      + cbn [forallb assoc]. rewrite String.eqb_refl. rewrite (IH _ _ _ Henc mf m' s0 Hokt Es k Hk). cbn.
-        apply forallb_forall. intros [key' x'] Hin.
-        assert (Hk': In key' (map f_key r)) by (rewrite <- Hm; apply in_map_iff; exists (key', x'); auto).
-        rewrite (nodup_notin _ _ _ Hnd1 Hk').
-        exact (proj1 (forallb_forall _ _) Hv _ Hin).
-  Qed.
-
-  Lemma obj_sound n (IH: sound_at n) mf m' k (Hk: 2 * n + 1 <= k) title fields fs ms ps :
-    all2 (fun f (p: (string * value) * (string * json)) => match p with ((nm, fv), (key, x)) =>
-            String.eqb (f_name f) nm && String.eqb (f_key f) key && enc_ok n E (f_ty f) fv x end)
-         fields (combine fs ms) = true ->
-    List.length fs = List.length ms ->
-    omap (fun f => match schema_f E dl ar mf (f_ty f) with Some s => Some (f_key f, s) | None => None end) fields = Some ps ->
-    forallb (fun f => f_init f && ty_ok m' E (f_ty f)) fields = true ->
-    no_dup_str (map f_key fields) = true ->
-    jvalid pm defs (Sn k) (S (obj_kws title ps (map f_key (filter (fun f => negb (f_has_default f)) fields)))) (JObj ms) = true.
-  Proof.
-    intros Ha Hl Ho Hok Hnd.
-    destruct (fields_ok n IH mf m' k Hk _ _ _ _ Ha Hl Ho Hok Hnd) as (Hm & Hp & Hv).
-    rewrite jvalid_S. cbn [kws_of].
-    set (KW := obj_kws title ps (map f_key (filter (fun f => negb (f_has_default f)) fields))).
-    assert (HKW: get_props KW = ps) by apply get_props_obj.
-    unfold KW at 2. unfold obj_kws.
-    rewrite !forallb_app, !andb_true_iff. refine (conj _ (conj _ (conj _ (conj _ _)))).
-    - reflexivity.
-    - destruct title; reflexivity.
-    - destruct ps; [reflexivity|]. cbn [forallb kw_ok]. rewrite Hv. reflexivity.
-    - assert (Hreq: forallb (has_key ms) (map f_key (filter (fun f => negb (f_has_default f)) fields)) = true).
-      { apply forallb_forall. intros key Hin. apply has_key_in. rewrite Hm.
-        apply in_map_iff in Hin. destruct Hin as (f & <- & Hf). apply filter_In in Hf. apply in_map. tauto. }
-      destruct (map f_key (filter (fun f => negb (f_has_default f)) fields)); [reflexivity|].
-      cbn [forallb kw_ok]. rewrite andb_true_r. exact Hreq.
-    - cbn [forallb kw_ok orb]. rewrite andb_true_r, HKW.
-      apply forallb_forall. intros [key x] Hin. cbn [fst]. apply has_key_in. rewrite Hp, <- Hm.
-      apply in_map_iff. exists (key, x). auto.
+      cbn [forallb2]. rewrite (IH _ _ _ _ _ Ha1 m m' s0 Hok1 Es k Hk). cbn. eapply IHr; eauto.
   Qed.
 
   Lemma assoc_omap_find (F: ty -> option schema) key : forall fields ps f,
@@ -257,9 +276,52 @@ Section Sound.
     - destruct (IHr ps' f eq_refl Hf) as (Hin & s & Hs & Ha). split; [right; assumption|]. eauto.
   Qed.
 
+  (* a dataclass object schema accepts the members emitted for an instance *)
+  Lemma data_sound n (IH: sound_at n) mf m' k (Hk: 2 * n + 1 <= k) d fs ms ps :
+    obj_match (fun f fv x => enc_ok n E (nt_mode (c_ntd d) (f_ntover f)) (c_ntd d) (f_ty f) fv x)
+              (fun f fv => c_omit d && nullable (f_ty f) && is_none_val fv) (c_fields d) fs ms = true ->
+    omap (fun f => match schema_f E dl ar (nt_mode (c_ntd d) (f_ntover f)) mf (f_ty f) with
+                   | Some s => Some (f_key f, s) | None => None end) (c_fields d) = Some ps ->
+    forallb (fun f => f_init f && ty_ok m' E (nt_mode (c_ntd d) (f_ntover f)) (c_ntd d) (f_ty f)
+                      && (negb (c_omit d) || f_has_default f || never_none m' (f_ty f))) (c_fields d) = true ->
+    no_dup_str (map f_key (c_fields d)) = true ->
+    jvalid pm defs (Sn k) (S (obj_kws (Some (c_name d)) ps (map f_key (filter (fun f => negb (f_has_default f)) (c_fields d)))))
+           (JObj ms) = true.
+  Proof.
+    intros Hm Ho Hok Hnd.
+    destruct (obj_match_facts _ _ _ _ _ Hm) as [M F].
+    pose proof (ps_assoc f_key (fun f => schema_f E dl ar (nt_mode (c_ntd d) (f_ntover f)) mf (f_ty f)) _ _ Ho Hnd) as PA.
+    rewrite jvalid_S. cbn [kws_of].
+    set (KW := obj_kws (Some (c_name d)) ps (map f_key (filter (fun f => negb (f_has_default f)) (c_fields d)))).
+    assert (HKW: get_props KW = ps) by apply get_props_obj.
+    unfold KW at 2. unfold obj_kws.
+    rewrite !forallb_app, !andb_true_iff. refine (conj _ (conj _ (conj _ (conj _ _)))).
+    - reflexivity.
+    - reflexivity.
+    - destruct ps eqn:Eps; [reflexivity|]. rewrite <- Eps in *. cbn [forallb kw_ok]. rewrite andb_true_r.
+      apply forallb_forall. intros [key x] Hin. destruct (M key x Hin) as (f & fv & Hf & -> & Hc).
+      destruct (PA f Hf) as (s' & Hs' & ->).
+      pose proof (forallb_In _ _ _ Hok Hf) as H0. apply andb_true_iff in H0. destruct H0 as [H0 _].
+      apply andb_true_iff in H0. destruct H0 as [_ H0].
+      eapply (IH _ _ _ _ _ Hc mf m' s'); eauto.
+    - assert (Hr: forallb (has_key ms) (map f_key (filter (fun f => negb (f_has_default f)) (c_fields d))) = true).
+      { apply forallb_forall. intros key Hin. apply in_map_iff in Hin. destruct Hin as (f & <- & Hf).
+        apply filter_In in Hf. destruct Hf as [Hf Hd]. apply negb_true_iff in Hd.
+        destruct (F f Hf) as [(fv & Hdrop & Hc)|Hh]; [|exact Hh]. exfalso.
+        apply andb_true_iff in Hdrop. destruct Hdrop as [Hdrop Hnv]. apply andb_true_iff in Hdrop. destruct Hdrop as [Hom _].
+        pose proof (forallb_In _ _ _ Hok Hf) as H0. apply andb_true_iff in H0. destruct H0 as [_ H0].
+        rewrite Hom, Hd in H0. cbn in H0.
+        rewrite (never_none_enc E _ _ _ _ _ _ JNull H0 Hnv) in Hc. discriminate. }
+      destruct (map f_key (filter (fun f => negb (f_has_default f)) (c_fields d))); [reflexivity|].
+      cbn [forallb kw_ok]. rewrite andb_true_r. exact Hr.
+    - cbn [forallb kw_ok orb]. rewrite andb_true_r, HKW.
+      apply forallb_forall. intros [key x] Hin. cbn [fst]. destruct (M key x Hin) as (f & fv & Hf & -> & _).
+      destruct (PA f Hf) as (s' & _ & Ha). eapply assoc_has_key; eassumption.
+  Qed.
+
   Lemma sound_step n : sound_at n -> sound_at (Sn n).
   Proof.
-    intros IH t v j He m m' s Hok Hs k Hk.
+    intros IH cur base t v j He m m' s Hok Hs k Hk.
     destruct m as [|m]; [discriminate|]. destruct m' as [|m']; [discriminate|].
     destruct k as [|k]; [lia|].
     assert (Hk1: 2 * n + 1 <= k) by lia.
@@ -294,14 +356,19 @@ Section Sound.
       + destruct Hx.
       + destruct Hx as [->|[]]. apply json_eqb_refl.
       + apply existsb_exists. exists j0. split; [assumption|apply json_eqb_refl].
-    - (* TList *) destruct (schema_f E dl ar m t) as [s0|] eqn:Es0; [|discriminate]. inv Hs.
+    - (* TList *) destruct (schema_f E dl ar cur m t) as [s0|] eqn:Es0; [|discriminate]. inv Hs.
       destruct v; try discriminate. destruct j; try discriminate.
+      apply andb_true_iff in Hok. destruct Hok as [Hkb Hok].
+      assert (Hc: (if keep then cur else base) = cur).
+      { destruct keep; [reflexivity|]. cbn in Hkb. apply Bool.eqb_prop in Hkb. congruence. }
+      rewrite Hc in He.
       assert (Hall: forallb (jvalid pm defs k s0) l0 = true).
       { eapply all2_forallb; [|exact He]. intros x y _ Hxy. eapply IH; eauto. }
       unfold opt_kw. destruct (is_empty_schema s0); cbn [app kws_of forallb kw_ok has_type get_prefix_len skipn];
         rewrite ?Hall; reflexivity.
-    - (* TSet *) destruct (schema_f E dl ar m t) as [s0|] eqn:Es0; [|discriminate]. inv Hs.
+    - (* TSet *) destruct (schema_f E dl ar cur m t) as [s0|] eqn:Es0; [|discriminate]. inv Hs.
       destruct v; try discriminate. destruct j; try discriminate.
+      apply andb_true_iff in Hok. destruct Hok as [Hkb Hok]. apply Bool.eqb_prop in Hkb. subst base.
       apply andb_true_iff in He. destruct He as [He Hnd].
       assert (Hall: forallb (jvalid pm defs k s0) l0 = true).
       { eapply all2_forallb; [|exact He]. intros x y _ Hxy. eapply IH; eauto. }
@@ -319,7 +386,7 @@ Section Sound.
         match type of Hs with context [omap ?G (a0 :: r)] => destruct (omap G (a0 :: r)) as [targs|] eqn:Eo; [|discriminate] end.
         inv Hs. destruct (tuple_plain _ _ Hnu _ Eo) as (ss & -> & Ess).
         rewrite on_tuple_k_spec, spec_plain.
-        pose proof (prefix_ok n IH m m' k Hk1 _ _ _ _ He Ess Hoks) as Hp.
+        pose proof (prefix_ok (@snd bool ty) n IH cur base m m' k Hk1 _ _ _ _ He Ess Hoks) as Hp.
         pose proof (omap_length _ _ _ Ess) as Hlen.
         destruct ss as [|s0 ss']; [cbn in Hlen; discriminate|].
         assert (Hz: z_or_none (zlen (s0 :: ss')) = Some (zlen (s0 :: ss'))).
@@ -330,19 +397,20 @@ Section Sound.
         assert (Hll: Z.of_nat (List.length l0) = zlen (s0 :: ss')) by (unfold zlen; rewrite Hlen, <- Hl2, Hl1; reflexivity).
         rewrite Hll, Z.leb_refl. reflexivity.
     - (* TDict *)
-      destruct (schema_f E dl ar m t1) as [ks|] eqn:Ek; [|discriminate].
-      destruct (schema_f E dl ar m t2) as [vs|] eqn:Ev; [|discriminate]. inv Hs.
+      destruct (schema_f E dl ar cur m t1) as [ks|] eqn:Ek; [|discriminate].
+      destruct (schema_f E dl ar cur m t2) as [vs|] eqn:Ev; [|discriminate]. inv Hs.
       destruct v; try discriminate. destruct j; try discriminate.
-      apply andb_true_iff in Hok. destruct Hok as [Hok Hokv]. apply andb_true_iff in Hok. destruct Hok as [Hw Hokk].
+      apply andb_true_iff in Hok. destruct Hok as [Hok Hokv]. apply andb_true_iff in Hok. destruct Hok as [Hok Hokk].
+      apply andb_true_iff in Hok. destruct Hok as [Hkb Hw]. apply Bool.eqb_prop in Hkb. subst base.
       assert (Hall: forallb (fun kv : string * json => jvalid pm defs k ks (JStr (fst kv)) && jvalid pm defs k vs (snd kv)) kvs0 = true).
       { eapply all2_forallb; [|exact He]. intros [kv' vv] [key x] _ Hxy. cbn [fst snd].
         apply andb_true_iff in Hxy. destruct Hxy as [Hkey Hval].
-        rewrite (IH _ _ _ Hval m m' vs Hokv Ev k Hk1), andb_true_r.
-        assert (Hk': enc_ok n E t1 kv' (JStr key) = true).
+        rewrite (IH _ _ _ _ _ Hval m m' vs Hokv Ev k Hk1), andb_true_r.
+        assert (Hk': enc_ok n E cur cur t1 kv' (JStr key) = true).
         { apply orb_true_iff in Hkey. destruct Hkey as [Hkey|Hkey]; [assumption|].
           apply existsb_exists in Hkey. destruct Hkey as (kj & _ & Hkj).
           apply andb_true_iff in Hkj. destruct Hkj as [Hkj Hks].
-          destruct (str_wired_jstr E _ _ _ _ _ Hw Hkj) as (s0 & ->). cbn [key_str] in Hks.
+          destruct (str_wired_jstr E _ _ _ _ _ _ _ Hw Hkj) as (s0 & ->). cbn [key_str] in Hks.
           apply String.eqb_eq in Hks. subst. assumption. }
         eapply IH; eauto. }
       apply forallb_and in Hall. destruct Hall as [Hkeys Hvals].
@@ -351,34 +419,32 @@ Section Sound.
       unfold opt_kw. destruct (is_empty_schema vs); destruct (is_empty_schema ks);
         cbn [app kws_of forallb kw_ok has_type get_props]; rewrite ?Hv', ?Hkeys; reflexivity.
     - (* TUnion *)
-      destruct (omap (schema_f E dl ar m) ts) as [l|] eqn:Eo; [|discriminate]. inv Hs.
+      destruct (omap (schema_f E dl ar cur m) ts) as [l|] eqn:Eo; [|discriminate]. inv Hs.
       cbn [kws_of forallb kw_ok]. rewrite andb_true_r.
       apply existsb_exists in He. destruct He as (t' & Hin & He').
       destruct (omap_In _ _ _ _ Eo Hin) as (s' & Hs' & Hin').
       apply existsb_exists. exists s'. split; [assumption|].
-      eapply (IH _ _ _ He' m m' s'); [eapply forallb_In; eassumption|assumption|assumption].
+      eapply (IH _ _ _ _ _ He' m m' s'); [eapply forallb_In; eassumption|assumption|assumption].
     - (* TData *)
       destruct (find_cls (classes E) c) as [d|] eqn:Ed; [|discriminate].
       destruct v; try discriminate. destruct j; try discriminate.
-      apply andb_true_iff in He. destruct He as [He Hl2]. apply andb_true_iff in He. destruct He as [He Hl1].
-      apply Nat.eqb_eq in Hl1. apply Nat.eqb_eq in Hl2.
       pose proof (find_cls_In _ _ _ Ed) as Hin.
       assert (Hnd: no_dup_str (map f_key (c_fields d)) = true).
       { unfold env_ok in Eok. apply andb_true_iff in Eok. destruct Eok as [_ Hf]. exact (forallb_In _ _ _ Hf Hin). }
       assert (Hinit: filter f_init (c_fields d) = c_fields d).
       { apply filter_all. apply forallb_forall. intros f Hf. pose proof (forallb_In _ _ _ Hok Hf) as H0.
-        apply andb_true_iff in H0. tauto. }
+        apply andb_true_iff in H0. destruct H0 as [H0 _]. apply andb_true_iff in H0. tauto. }
       destruct ar eqn:Ear.
       + inv Hs. cbn [kws_of forallb kw_ok]. rewrite andb_true_r.
         destruct (Hdefs eq_refl d Hin) as (md & s' & Hcs & Has). rewrite Has.
         unfold class_schema in Hcs. rewrite Hinit in Hcs.
         match type of Hcs with context [omap ?G (c_fields d)] => destruct (omap G (c_fields d)) as [ps|] eqn:Eo; [|discriminate] end.
         inv Hcs. destruct k as [|k']; [lia|].
-        eapply (obj_sound n IH md m' k' ltac:(lia)); eauto. rewrite Ear. exact Eo.
+        eapply (data_sound n IH md m' k' ltac:(lia)); eauto. rewrite Ear. exact Eo.
       + rewrite Hinit in Hs.
         match type of Hs with context [omap ?G (c_fields d)] => destruct (omap G (c_fields d)) as [ps|] eqn:Eo; [|discriminate] end.
         inv Hs. rewrite <- jvalid_S.
-        eapply (obj_sound n IH m m' k); eauto. rewrite Ear. exact Eo.
+        eapply (data_sound n IH m m' k); eauto. rewrite Ear. exact Eo.
     - (* TTyped *)
       destruct (find_cls (typeds E) c) as [d|] eqn:Ed; [|discriminate].
       destruct v; try discriminate. destruct j; try discriminate.
@@ -394,8 +460,8 @@ Section Sound.
       { intros key x Hin. pose proof (forallb_In _ _ _ He Hin) as H0. cbn beta iota in H0.
         destruct (assoc fs key) as [fv|]; [|discriminate].
         destruct (find (fun f => String.eqb (f_name f) key) (c_fields d)) as [f|] eqn:Ef; [|discriminate].
-        destruct (assoc_omap_find (schema_f E dl ar m) key _ _ _ Eo Ef) as (Hfin & s' & Hs' & Ha).
-        exists s'. split; [assumption|]. eapply (IH _ _ _ H0 m m' s'); eauto.
+        destruct (assoc_omap_find (schema_f E dl ar cur m) key _ _ _ Eo Ef) as (Hfin & s' & Hs' & Ha).
+        exists s'. split; [assumption|]. eapply (IH _ _ _ _ _ H0 m m' s'); eauto.
         exact (forallb_In _ _ _ Hok Hfin). }
       unfold KW at 2. unfold obj_kws.
       rewrite !forallb_app, !andb_true_iff. refine (conj _ (conj _ (conj _ (conj _ _)))).
@@ -413,12 +479,52 @@ Section Sound.
       + cbn [forallb kw_ok orb]. rewrite andb_true_r, HKW.
         apply forallb_forall. intros [key x] Hin. cbn [fst]. destruct (Hmem key x Hin) as (s' & Ha & _).
         eapply assoc_has_key; eassumption.
+    - (* TNamed *)
+      destruct (find_cls (nts E) c) as [d|] eqn:Ed; [|discriminate].
+      destruct v; try discriminate.
+      apply andb_true_iff in Hok. destruct Hok as [Hok Hnd].
+      destruct cur.
+      + (* as dict *)
+        destruct j; try discriminate.
+        apply andb_true_iff in He. destruct He as [He Hl2]. apply andb_true_iff in He. destruct He as [He Hl1].
+        apply Nat.eqb_eq in Hl1.
+        match type of Hs with context [omap ?G (c_fields d)] => destruct (omap G (c_fields d)) as [ps|] eqn:Eo; [|discriminate] end.
+        inv Hs.
+        destruct (nt_members (fun f fv x => enc_ok n E true base (f_ty f) fv x) _ _ _ He Hl1) as [M F].
+        pose proof (ps_assoc f_name (fun f => schema_f E dl ar true m (f_ty f)) _ _ Eo Hnd) as PA.
+        cbn [kws_of].
+        set (KW := (KType TyObject :: (match ps with [] => [] | _ => [KProps ps] end
+                   ++ [KRequired (map f_name (c_fields d)); KAddl false]))%list).
+        assert (HKW: get_props KW = ps) by (unfold KW; destruct ps; reflexivity).
+        unfold KW at 2. cbn [forallb].
+        rewrite forallb_app, !andb_true_iff. refine (conj _ (conj _ _)).
+        * reflexivity.
+        * destruct ps eqn:Eps; [reflexivity|]. rewrite <- Eps in *. cbn [forallb kw_ok]. rewrite andb_true_r.
+          apply forallb_forall. intros [key x] Hin. destruct (M key x Hin) as (f & fv & Hf & -> & Hc).
+          destruct (PA f Hf) as (s' & Hs' & ->).
+          eapply (IH _ _ _ _ _ Hc m m' s'); eauto. exact (forallb_In _ _ _ Hok Hf).
+        * cbn [forallb kw_ok orb]. rewrite HKW, !andb_true_r. apply andb_true_iff. split.
+          -- apply forallb_forall. intros key Hin. apply in_map_iff in Hin. destruct Hin as (f & <- & Hf). exact (F f Hf).
+          -- apply forallb_forall. intros [key x] Hin. cbn [fst]. destruct (M key x Hin) as (f & fv & Hf & -> & _).
+             destruct (PA f Hf) as (s' & _ & Ha). eapply assoc_has_key; eassumption.
+      + (* as list *)
+        destruct j; try discriminate.
+        apply andb_true_iff in He. destruct He as [He Hl2]. apply andb_true_iff in He. destruct He as [He Hl1].
+        apply Nat.eqb_eq in Hl1. apply Nat.eqb_eq in Hl2.
+        destruct (omap (fun f => schema_f E dl ar false m (f_ty f)) (c_fields d)) as [ss|] eqn:Eo; [|discriminate].
+        pose proof (prefix_ok f_ty n IH false base m m' k Hk1 _ _ _ _ He Eo Hok) as Hp.
+        pose proof (omap_length _ _ _ Eo) as Hlen.
+        destruct ss as [|s0 ss']; inv Hs.
+        * reflexivity.
+        * cbn [kws_of forallb kw_ok has_type]. rewrite Hp.
+          assert (Hll: Z.of_nat (List.length l0) = zlen (s0 :: ss')) by (unfold zlen; rewrite Hlen, <- Hl2, Hl1; reflexivity).
+          rewrite Hll, Z.leb_refl. reflexivity.
   Qed.
 
   Theorem sound_all : forall n, sound_at n.
   Proof.
     induction n as [|n IHn]; [|apply sound_step; assumption].
-    intros t v j He. discriminate.
+    intros cur base t v j He. discriminate.
   Qed.
 End Sound.
 
